@@ -228,7 +228,7 @@ def run(ctx):
                     ctx.check("fd.refusal", not ok, "oversize_data_field_packed", f"crc={crc}", {"cfg": cfg, "data_len": 65536 - over})
     # File Data PDUs with the CRC flag whose running CRC is exactly 0x0000 / 0xFFFF after the header or after the offset field
     for target in (0x0000, 0xFFFF):
-        for where in ("header", "offset"):
+        for where in ("header", "offset", "whole"):
             for sm in (None, [2, "a1b2c3"]):
                 cfg = C.rand_cfg(r, segctrl=True, crc=1, seqw=r.choice((2, 4, 8)))
                 got = C.craft_crc_boundary("file_data", cfg, {"offset": C.rand_fss(r, cfg["large"]), "data": rand_bytes(r, 20).hex(), "seg_meta": sm}, where, target)
